@@ -4,7 +4,7 @@ import codec, radius
 TRUSTED_BASE = ['model of buf2radmsg in coq/Model/Packet.v; MD5 oracle (Coq) / OCaml Digest (driver); HMAC-MD5 defined in Gallina per RFC 2104']
 ASSUMPTIONS = ['md5 output has 16 bytes']
 RULE = 'valid replies, every single-bit corruption of the first 64 bytes of a valid reply + random bit flips, replies signed with another secret / for another request; distinct = distinct implementation observation lines'
-def generate(rng, tier):
+def generate_core(rng, tier):
     ops = []
     m = 40 if tier == 'thorough' else 3
     for _ in range(m):
@@ -29,3 +29,8 @@ def generate(rng, tier):
             ops.append('op parse %s %s %s' % (hx(sec), hx(rq), hx(b)))
     ops += codec.parse_ops(rng, 30000 if tier == 'thorough' else 1500)
     return batch(ops, 'rep', 100)
+
+def generate(rng, tier):
+    """the component-level cases, then the clause seen through the whole request/reply pipeline"""
+    import pipeline, focus
+    return generate_core(rng, tier) + focus.never_sent_cases(rng, 200 if tier == 'thorough' else 12) + pipeline.guided_cases(rng, 300 if tier == 'thorough' else 20, pipeline.exchange_history, 'xchg')
